@@ -350,7 +350,11 @@ func ruleSIB4(w *World, r *Report) {
 	}
 	dirs := func(fn *ssa.Function) []string {
 		set := map[string]bool{}
-		for _, f := range append([]*ssa.Function{fn}, closuresOf(fn)...) {
+		scope := append([]*ssa.Function{fn}, closuresOf(fn)...)
+		for _, h := range w.extractedHelpers(fn) { // the cascade moved into a helper of its own is still the cascade
+			scope = append(append(scope, h), closuresOf(h)...)
+		}
+		for _, f := range scope {
 			for _, in := range findInstrs(f, callsTo(gar)) {
 				if s, ok := constString(in.(*ssa.Call).Call.Args[2]); ok {
 					// "both" is NOT the union of the two views: GetAllRelations keys its result by relation type only, so
@@ -384,9 +388,22 @@ func ruleSIB4(w *World, r *Report) {
 			}
 		}
 	}
-	r.Cond(!inGoroutine && len(findInstrs(fn, callsTo(vunlink))) > 0, "SIB-4", "VDelete:cascade-runs-before-return", w.Pos(vd.Decl.Pos()), "the edges of the deleted node are unlinked by VDelete itself", "the delete cascade runs in a goroutine started by VDelete, some time after VDelete has returned and keyed by the external id: an id that is re-added right after its deletion first shows the dead node's edges, and when the cascade finally runs it also removes the edges created on the re-added node")
+	// the cascade may be a helper of VDelete's own (called in place, by nobody else)
+	cascadeFns := append([]*ssa.Function{fn}, closuresOf(fn)...)
+	inPlace := len(findInstrs(fn, callsTo(vunlink))) > 0
+	for _, h := range w.extractedHelpers(fn) {
+		cascadeFns = append(append(cascadeFns, h), closuresOf(h)...)
+		if len(findInstrs(h, callsTo(vunlink))) > 0 {
+			for _, cs := range callSitesOf(fn, h) {
+				if cs.Parent() == fn {
+					inPlace = true
+				}
+			}
+		}
+	}
+	r.Cond(!inGoroutine && inPlace, "SIB-4", "VDelete:cascade-runs-before-return", w.Pos(vd.Decl.Pos()), "the edges of the deleted node are unlinked by VDelete itself", "the delete cascade runs in a goroutine started by VDelete, some time after VDelete has returned and keyed by the external id: an id that is re-added right after its deletion first shows the dead node's edges, and when the cascade finally runs it also removes the edges created on the re-added node")
 	nUnlink := 0
-	for _, f := range append([]*ssa.Function{fn}, closuresOf(fn)...) {
+	for _, f := range cascadeFns {
 		nUnlink += len(findInstrs(f, callsTo(vunlink)))
 	}
 	r.Cond(nUnlink >= 2, "SIB-4", "VDelete:cascade-journals-through-VUnlink", w.Pos(vd.Decl.Pos()), "cascade unlinks through the journaling VUnlink", "the cascade no longer removes edges through VUnlink for both directions: its unlinks are not journaled and come back after restart")
